@@ -245,6 +245,49 @@ func shapeByName(n string) *errShape {
 	panic("unknown error shape " + n)
 }
 
+// checkLibraryFacts: the facts about net/http that the model takes for granted (assumptions of the
+// props file), re-checked on every run against the toolchain the harness is built with.
+func checkLibraryFacts() {
+	must := func(ok bool, what string) {
+		if !ok {
+			panic("net/http no longer behaves as the C17 model assumes: " + what)
+		}
+	}
+	data := []byte("abc")
+	r1, _ := http.NewRequest(http.MethodPut, "http://x/", bytes.NewReader(data))
+	must(r1.GetBody != nil && r1.ContentLength == 3, "NewRequest installs GetBody and ContentLength for *bytes.Reader")
+	r2, _ := http.NewRequest(http.MethodPut, "http://x/", &oneShot{bytes.NewReader(data)})
+	must(r2.GetBody == nil && r2.Body != nil && r2.ContentLength == 0, "NewRequest leaves GetBody nil and ContentLength 0 for an unknown reader")
+	r3, _ := http.NewRequest(http.MethodPut, "http://x/", io.NopCloser(bytes.NewReader(data)))
+	must(r3.GetBody == nil, "NewRequest leaves GetBody nil for a ReadCloser wrapping a replayable reader")
+	r4, _ := http.NewRequest(http.MethodPut, "http://x/", nil)
+	must(r4.Body == nil && r4.GetBody == nil, "NewRequest with a nil body leaves Body nil")
+	c := r1.Clone(context.Background())
+	must(c.Body == r1.Body, "Request.Clone shares Body")
+	b1, _ := c.GetBody()
+	got, _ := io.ReadAll(b1)
+	must(string(got) == "abc", "Request.Clone shares GetBody")
+	var de error = context.DeadlineExceeded
+	ne, ok := de.(net.Error)
+	must(ok && ne.Timeout(), "context.DeadlineExceeded is a net.Error reporting Timeout()")
+	_, ok = error(context.Canceled).(net.Error)
+	must(!ok, "context.Canceled is not a net.Error")
+	// http.Client.Do hands the request (Body, GetBody, ContentLength, context) to the RoundTripper and
+	// returns its response for the status codes used
+	var seen *http.Request
+	hc := &http.Client{Transport: roundTripFunc(func(q *http.Request) (*http.Response, error) {
+		seen = q
+		return &http.Response{StatusCode: 503, Header: http.Header{}, Body: http.NoBody, Request: q}, nil
+	})}
+	resp, err := hc.Do(r1)
+	must(err == nil && resp.StatusCode == 503 && seen != nil && seen.Body == r1.Body && seen.ContentLength == 3 && seen.GetBody != nil,
+		"http.Client.Do passes Body/GetBody/ContentLength through and returns the RoundTripper's response")
+}
+
+type roundTripFunc func(*http.Request) (*http.Response, error)
+
+func (f roundTripFunc) RoundTrip(r *http.Request) (*http.Response, error) { return f(r) }
+
 // the declarations above must be what the Go values really report (guards the table)
 func checkShapes() {
 	for _, s := range errShapes {
@@ -2083,6 +2126,7 @@ func replayCases(t *testing.T) {
 
 func TestVerif(t *testing.T) {
 	checkShapes()
+	checkLibraryFacts()
 	run.Rule = "a script counts when it led to more than one attempt (a retry or a re-send after a challenge); a policy point counts when the decision is not the trivial STOP"
 	if run.Replay != "" {
 		replayCases(t)
